@@ -232,6 +232,12 @@ class Evaluator:
                     yield s1, a
                     continue
             for s2, b in self.ev(e["b"], s1):
+                if e.get("callee") and self.call_hook:
+                    # an overloaded operator (`a == b` on a user type) is a call of the trait method
+                    r = self.call_hook(e["callee"], [a, b], s2)
+                    if r is not None and not isinstance(r, list):
+                        yield s2, (neg(r) if op == "!=" and e["callee"].endswith("::eq") else r)
+                        continue
                 yield s2, self.binop(op, a, b)
 
     def binop(self, op, a, b):
